@@ -1,5 +1,6 @@
 import Bxh.Proofs.ExecLemmas
 import Bxh.Proofs.ExecSupply
+import Bxh.Proofs.ExecFees
 /-!
 # C14 — transfers and fees never create value
 Theorems about `transfer`, `payGasFee`, `payLeftAsGasFee`, `payAdmins` of `Bxh.Exec`
@@ -176,6 +177,49 @@ example :
     let accts := ["u0", "u1", "adm0", "adm1", "adm2", "adm3"]
     -- the fourth transaction cannot pay its fee: reverted, u1's whole balance (30007) goes to the four admins, 3 units of rounding are lost
     Exec.total l accts = 1030020 ∧ Exec.total (execBlock {} n txs).1.led accts = 1030017 ∧ (execBlock {} n txs).1.led.getBal "u1" = 0 := by
+  decide
+
+/-! ### the fee reaches the admins (the other direction: nothing but the rounding of the split is lost) -/
+
+/-- **a fee that can be paid reaches the admins with at most `n − 1` units of rounding loss**: over any list of distinct accounts
+that contains the sender and all admins — whoever the sender is, one of the admins too -/
+theorem C14_paid_fee_reaches_admins (cfg : Cfg) (l l' : Led) (s : String) (g : Nat) (e : payGasFee cfg l s g = some l')
+    (accts : List String) (hnd : accts.Nodup) (hs : s ∈ accts) (hadm : ∀ a ∈ cfg.admins, a ∈ accts) (hn : 0 < cfg.admins.length) :
+    Exec.total l accts - ((cfg.admins.length : Int) - 1) ≤ Exec.total l' accts :=
+  payGasFee_total_ge e accts hnd hs hadm hn
+
+/-- **a sender that cannot cover the fee loses its whole remaining balance, and that too reaches the admins with at most `n − 1`
+units of rounding loss — also when the sender is itself one of the admins** (it is emptied first and then receives its share;
+emptying it after the split would destroy its share) -/
+theorem C14_unpayable_fee_reaches_admins (cfg : Cfg) (l : Led) (s : String)
+    (accts : List String) (hnd : accts.Nodup) (hs : s ∈ accts) (hadm : ∀ a ∈ cfg.admins, a ∈ accts) (hn : 0 < cfg.admins.length) :
+    Exec.total l accts - ((cfg.admins.length : Int) - 1) ≤ Exec.total (payLeftAsGasFee cfg l s) accts :=
+  payLeft_total_ge cfg l s accts hnd hs hadm hn
+
+/-- **one transaction destroys at most the rounding of its fee**, whatever it is (transfer inside the account list, IBTP,
+contract call), whether it succeeds, fails or cannot pay, whoever sends it -/
+theorem C14_tx_loss_bound (env : Env) (l : Led) (tx : Tx) (inv : Option String)
+    (accts : List String) (hnd : accts.Nodup) (hs : tx.sender ∈ accts) (hr : recvIn tx accts)
+    (hadm : ∀ a ∈ env.cfg.admins, a ∈ accts) (hn : 0 < env.cfg.admins.length) :
+    Exec.total l accts - ((env.cfg.admins.length : Int) - 1) ≤ Exec.total (applyTx env l tx inv).1 accts :=
+  applyTx_total_ge env l tx inv accts hnd hs hr hadm hn
+
+/-- **over any block at most `n − 1` units per transaction leave the accounts** (senders, receivers and admins inside the list):
+together with `C14_block_no_value_created` the sum of all balances moves within `[−(n−1)·|txs|, 0]` per block -/
+theorem C14_block_loss_bound (cfg : Cfg) (n : Node) (txs : List (Tx × Bool)) (accts : List String) (hnd : accts.Nodup)
+    (hs : ∀ p ∈ txs, p.1.sender ∈ accts) (hr : ∀ p ∈ txs, recvIn p.1 accts)
+    (hadm : ∀ a ∈ cfg.admins, a ∈ accts) (hn : 0 < cfg.admins.length) :
+    Exec.total n.led accts - (txs.length : Int) * ((cfg.admins.length : Int) - 1) ≤ Exec.total (execBlock cfg n txs).1.led accts :=
+  execBlock_total_ge cfg n txs accts hnd hs hr hadm hn
+
+/-- non-vacuity: the admin `adm1` holds 1002 and cannot pay the fee of its transfer (21000): the 1002 are split 250 each, `adm1`
+keeps its own share of 250, two units of rounding are lost — the bound `n − 1 = 3` is met -/
+example :
+    let l : Led := { bal := [("u0", 10), ("adm0", 5), ("adm1", 1002), ("adm2", 5), ("adm3", 5)] }
+    let n : Node := { led := l, height := 6 }
+    let accts := ["u0", "adm0", "adm1", "adm2", "adm3"]
+    let r := (execBlock {} n [(.xfer "adm1" "u0" (some 1), true)]).1.led
+    Exec.total l accts = 1027 ∧ Exec.total r accts = 1025 ∧ r.getBal "adm1" = 250 ∧ r.getBal "adm0" = 255 := by
   decide
 
 end Bxh.Props.C14
